@@ -23,22 +23,22 @@ CHECKS.update({
                 technique="interprocedural error-path write-set (effect) analysis over MIR + dominance/must-facts + call-site inventory",
                 design="DESIGN.md §4 C05"),
     "C06": dict(level="other",
-                text="History property decided through the invariants that collapse the quantifier: encrypt is always followed by n+=1 (post-dominance), key change implies n=0, fresh ephemeral before every pubkey read, roll-back completeness of failed handshake calls (error-path write set minus provably restored paths inside an allow-table), no error exit after the caller's payload was encrypted, static key constant. Not decided: the history quantifier beyond these conditions.",
+                text="History property decided through the invariants that collapse the quantifier: encrypt is always followed by n+=1 (post-dominance), key change implies n=0, fresh ephemeral before every pubkey read, roll-back completeness of failed handshake calls (error-path write set minus provably restored paths inside an allow-table), no error exit after the caller's payload was encrypted, static key constant. Not decided: the history quantifier beyond these conditions. Also: set_receiving_nonce addresses the receiving cipher state and write_message the sending one for both roles (role table).",
                 technique="MIR effect analysis with snapshot/restore kills + dominance / reachability rules + write inventories",
                 design="DESIGN.md §4 C06"),
     "C07": dict(level="other",
-                text="For the handshake entry points the may-write set on every error exit (all tokens, all failure points), minus what checkpoint/restore provably restores, must lie in an allow-table of dead paths with checked reasons; progress/turn only on the Ok edge; set_psk and stateful transport write nothing on error exits. State equality is decided; byte-equality of the continued session follows from it and is not separately decided.",
+                text="For the handshake entry points the may-write set on every error exit (all tokens, all failure points), minus what checkpoint/restore provably restores, must lie in an allow-table of dead paths with checked reasons; progress/turn only on the Ok edge; set_psk and stateful transport write nothing on error exits. State equality is decided; byte-equality of the continued session follows from it and is not separately decided. Also: a key toggle (s/e/rs/re) is switched off only where that same toggle was observed off (toggle-disable).",
                 technique="interprocedural error-path write-set analysis with snapshot/restore reasoning over MIR",
                 design="DESIGN.md §4 C07"),
     "C12": dict(level="proof",
-                text="Exhaustive finite cross-check: prerequisite predicates vs token table for 38 patterns x 2 roles, token table vs Noise rev 34 table and vs the §7.3 validity predicates, DH operand availability for every row and role, build-time guards/variants/order and missing-PSK arms from MIR. All obligations discharged.",
+                text="Exhaustive finite cross-check: prerequisite predicates vs token table for 38 patterns x 2 roles, token table vs Noise rev 34 table and vs the §7.3 validity predicates, DH operand availability for every row and role, build-time guards/variants/order and missing-PSK arms from MIR. All obligations discharged. Also: HandshakeTokens::try_from has an exit reporting Pattern(UnsupportedModifier) whatever the shape of the modifier loop.",
                 technique="HIR table extraction + cross-table comparison with spec tables + MIR must-fact guards",
                 design="DESIGN.md §4 C12"),
 })
 
 CHECKS.update({
     "C11": dict(level="other",
-                text="Each documented state-error exit is taken exactly under its condition (must-facts at the exit + product-state path search for the converse) with the documented variant; no write or &mut call precedes the turn/finished guards; turn/progress written only on the Ok edge with the right values; indicator getters return the fields; conversions gated on is_handshake_finished(); one-way guards with the right role polarity before any cipher use; is_oneway's list equals the one-message rows of the extracted pattern table. The call-sequence quantifier collapses because every guard is a function of four audited fields.",
+                text="Each documented state-error exit is taken exactly under its condition (must-facts at the exit + product-state path search for the converse) with the documented variant; no write or &mut call precedes the turn/finished guards; turn/progress written only on the Ok edge with the right values; indicator getters return the fields; conversions gated on is_handshake_finished(); one-way guards with the right role polarity before any cipher use; is_oneway's list equals the one-message rows of the extracted pattern table. The call-sequence quantifier collapses because every guard is a function of four audited fields. Also: out of phase the documented state error is the only possible outcome (state-error-total), and the roll-back the wrapper performs on that error edge re-installs exactly the checkpointed key and nonce (cipher-rollback).",
                 technique="MIR must-fact (guard) dataflow + product-state CFG path search + HIR table cross-check",
                 design="DESIGN.md §4 C11"),
     "C13": dict(level="other",
@@ -46,11 +46,11 @@ CHECKS.update({
                 technique="typed-HIR table and structure extraction compared with spec tables + MIR guard facts",
                 design="DESIGN.md §4 C13"),
     "C15": dict(level="other",
-                text="Dataflow and constants of the default REKEY (nonce 2^64-1, empty AD, 32 zero bytes, 48-byte buffer, first 32 bytes, set()); not overridden by any local impl; rekey write sets are {cipher} only; direction mapping of the whole rekey API in both transport types equals the role table; manual keys pass through unchanged. Rejection when only one side rekeys is not decided (AEAD).",
+                text="Dataflow and constants of the default REKEY (nonce 2^64-1, empty AD, 32 zero bytes, 48-byte buffer, first 32 bytes, set()); not overridden by any local impl; rekey write sets are {cipher} only; direction mapping of the whole rekey API in both transport types equals the role table; manual keys pass through unchanged. Rejection when only one side rekeys is not decided (AEAD). Also: rekey_outgoing/incoming rekey on every path except for the direction that does not exist in a one-way session; manual keys reach Cipher::set on the right cipher state through any number of forwarding layers.",
                 technique="MIR dataflow template matching (operand provenance, promoted constants) + effect summaries + role-table extraction",
                 design="DESIGN.md §4 C15"),
     "C16": dict(level="proof",
-                text="&self receivers, deep Freeze of everything reachable from the stateless state (all local Cipher impls behind dyn), no unsafe code, Send+Sync from the trait solver, empty self-rooted write set, nonce/AD passthrough, twin equality of the stateful and stateless cipher-state functions (same call, same guards, nonce operand self.n vs parameter), conversion moves cipher/has_key. All obligations finite and discharged; round-trip correctness itself rests on the AEAD crates.",
+                text="&self receivers, deep Freeze of everything reachable from the stateless state (all local Cipher impls behind dyn), no unsafe code, Send+Sync from the trait solver, empty self-rooted write set, nonce/AD passthrough, twin equality of the stateful and stateless cipher-state functions (same call, same guards, nonce operand self.n vs parameter), conversion moves cipher/has_key. All obligations finite and discharged; round-trip correctness itself rests on the AEAD crates. Also: the stateless read/write length limits are exactly 65535 / 65535-16.",
                 technique="type facts from the trait solver + deep Freeze walk + MIR effect summaries + sibling dataflow comparison + compile-only doc-test witnesses",
                 design="DESIGN.md §4 C16"),
 })
@@ -76,7 +76,7 @@ CHECKS.update({
                 technique="HIR table extraction + MIR effect traces and dataflow-template matching (operand provenance) against hand-written spec tables",
                 design="DESIGN.md §4 C01"),
     "C02": dict(level="other",
-                text="Mirror symmetry needed for agreement: write/read token traces equal the spec and each other under Encrypt<->Decrypt, both epilogues split identically, both AndHash operations mix the ciphertext, progress counters move only on Ok, role-index complementarity (initiator write = responder read) in both transport types, conversions move the cipher pair/role unchanged, generate_keypair returns one generated pair. Agreement for every random ephemeral/payload is not decided as such.",
+                text="Mirror symmetry needed for agreement: write/read token traces equal the spec and each other under Encrypt<->Decrypt, both epilogues split identically, both AndHash operations mix the ciphertext, progress counters move only on Ok, role-index complementarity (initiator write = responder read) in both transport types, conversions move the cipher pair/role unchanged, generate_keypair returns one generated pair. Agreement for every random ephemeral/payload is not decided as such. Also: HandshakeState::new hashes name, prologue and pre-message keys in the initiator-first order on both sides (context-binding), and the read/write length limits are exactly those of the specification.",
                 technique="sibling effect-trace comparison + dataflow templates + role-table extraction over MIR",
                 design="DESIGN.md §4 C02"),
     "C03": dict(level="other",
@@ -84,7 +84,7 @@ CHECKS.update({
                 technique="MIR cursor/advance analysis + effect traces + dataflow templates + crate-wide Result-use inventory",
                 design="DESIGN.md §4 C03"),
     "C04": dict(level="other",
-                text="Key index by role, whole message/output passed through, nonce operand (counter or caller's nonce) encoded into the AEAD nonce, key/AD/body/tag operands of every backend call, short-ciphertext guard (lenproof), Error::Decrypt on failure, Result propagation on the transport path. Unforgeability itself is the AEAD's (not decided).",
+                text="Key index by role, whole message/output passed through, nonce operand (counter or caller's nonce) encoded into the AEAD nonce, key/AD/body/tag operands of every backend call, short-ciphertext guard (lenproof), Error::Decrypt on failure, Result propagation on the transport path. Unforgeability itself is the AEAD's (not decided). Also: CipherState/StatelessCipherState::encrypt/decrypt pass zero-length associated data to the AEAD (templates).",
                 technique="role-table extraction + operand-provenance checks of AEAD wrappers + lenproof preconditions over MIR",
                 design="DESIGN.md §4 C04"),
     "C08": dict(level="other",
@@ -92,15 +92,15 @@ CHECKS.update({
                 technique="MIR effect traces / decision-table extraction against the role tables of the specification",
                 design="DESIGN.md §4 C08"),
     "C18": dict(level="other",
-                text="Snow-owned structure only: HMAC/HKDF templates (constants, truncations, counters), AEAD nonce layouts and operand wiring, binding table name()<->wrapped type<->lengths for all hash/DH/cipher impls, wrapper dataflow (clamped X25519 base-point/variable multiplication, uncompressed SEC1, rng-filled private keys). Every numerical statement about the external crates is NOT decided.",
+                text="Snow-owned structure only: HMAC/HKDF templates (constants, truncations, counters), AEAD nonce layouts and operand wiring, binding table name()<->wrapped type<->lengths for all hash/DH/cipher impls, wrapper dataflow (clamped X25519 base-point/variable multiplication, uncompressed SEC1, rng-filled private keys). Every numerical statement about the external crates is NOT decided. Also: the HMAC pad loop covers every key byte exactly once with matching indices.",
                 technique="dataflow-template matching + binding-table extraction (types, statics, constant getters) over MIR",
                 design="DESIGN.md §4 C18"),
     "C19": dict(level="other",
-                text="Only audited verify-then-decrypt AEAD entry points are called from Cipher impls; before the AEAD call only ciphertext, after it only success-path data is written to the caller's buffer (incl. ring's small-buffer path); nothing else writes the output buffer on any decrypt path up to the public API. The backends' internal verify-before-decrypt ordering is an assumption recorded with the Cargo.lock versions.",
+                text="Only audited verify-then-decrypt AEAD entry points are called from Cipher impls; before the AEAD call only ciphertext, after it only success-path data is written to the caller's buffer (incl. ring's small-buffer path); nothing else writes the output buffer on any decrypt path up to the public API. The backends' internal verify-before-decrypt ordering is an assumption recorded with the Cargo.lock versions. Also: inside a decrypt wrapper the output buffer is handed only to the AEAD open call and copy_from_slice, no sealing entry point is called, Ok is returned only on the open call's success edge; the handshake read hands the caller's payload buffer to exactly one decrypt.",
                 technique="who-may-call inventory + dominance/success-path ordering of writes to the output buffer over MIR",
                 design="DESIGN.md §4 C19"),
     "C20": dict(level="other",
-                text="Sibling agreement of default and ring impls (nonce layout, operands, tag, lengths; default HMAC/HKDF/REKEY), resolver tables choice->impl->name(), FallbackResolver structure (preferred, else fallback, same choice), Builder::new / with_resolver plumbing incl. ring-accelerated. Byte equality across backends depends on the crates' numerics (not decided).",
+                text="Sibling agreement of default and ring impls (nonce layout, operands, tag, lengths; default HMAC/HKDF/REKEY), resolver tables choice->impl->name(), FallbackResolver structure (preferred, else fallback, same choice), Builder::new / with_resolver plumbing incl. ring-accelerated. Byte equality across backends depends on the crates' numerics (not decided). Also: only the audited AEAD entry points of either backend are called from Cipher impls.",
                 technique="sibling comparison of extracted wrapper structure + HIR resolver tables + closure-body matching",
                 design="DESIGN.md §4 C20"),
 })
